@@ -4946,6 +4946,9 @@ class PyCdlib:
         # Above we checked to make sure we got at least one old path, so we
         # don't need to worry about the else situation here.
 
+        if old_rec.is_dir():
+            raise pycdlibexception.PyCdlibInvalidInput('Cannot make a hard link to a directory')
+
         num_bytes_to_add = self._add_hard_link_to_inode(old_rec.inode,
                                                         old_rec.get_data_length(),
                                                         fmode, boot_catalog_old,
